@@ -20,7 +20,7 @@ LEVEL = "exploration"
 RULE = ("random well-typed EEMS models (3-18 commands over all built-in data commands, CSV tables of 2-14 rows with int and float "
         "columns and missing cells; a ledger forces every command into the sample) x {original, reversed, k random permutations, "
         "metadata variant, extra-consumer variant}; distinct by (sorted command multiset up to 8, depth, max fan-out, table dtype mix, has-missing)")
-REQUIRED_COUNTERS = ["node_postconditions", "read_results_compared", "variant_runs", "shared_results_compared_bit_exact", "same_path_reruns"]
+REQUIRED_COUNTERS = ["node_postconditions", "read_results_compared", "variant_runs", "shared_results_compared_bit_exact", "same_path_reruns", "netcdf_models", "csv_models"]
 
 
 def post_merge(counters, tier):
@@ -39,7 +39,8 @@ def cases(ctx):
     for i in range(n):
         forced = cmds[(i * ctx.nshards + ctx.shard) % len(cmds)]
         # ledger: `forced` is over-weighted so that every command occurs in the sample (checked by post_merge)
-        m = models.gen_model(rng, n_ops=rng.randint(2, 14), sinks=rng.random() < 0.5, cmds=list(cmds) + [forced] * 8 + (["CvtToFuzzy"] * 4 if forced in arr.FUZZY_INPUT else []))
+        m = models.gen_model(rng, n_ops=rng.randint(2, 14), sinks=rng.random() < 0.5, cmds=list(cmds) + [forced] * 8 + (["CvtToFuzzy"] * 4 if forced in arr.FUZZY_INPUT else []),
+                             libs="nc" if i % 4 == 3 else "csv")
         yield {"model": m, "perms": 3 if ctx.quick else 8, "rseed": rng.randrange(10 ** 9)}
 
 
@@ -72,7 +73,7 @@ def _run_variant(ctx, model, d, tag, check_nodes=True):
         if name == "EEMSRead":
             col = model["table"]["cols"][c["args"]["InFieldName"]]
             integer = c["args"].get("DataType") == "Integer"
-            miss = c["args"].get("MissingVal")
+            miss = c["args"].get("MissingVal", c["args"].get("MissingValue"))
             want = []
             for v in col["data"]:
                 vv = int(v) if integer else float(v)
@@ -165,7 +166,8 @@ def run_case(ctx, case):
     rng = random.Random(case["rseed"])
     depth, fan = _depth_fanout(model)
     t = model["table"]
-    ctx.feature((tuple(sorted(c["cmd"] for c in model["commands"]))[:8], depth, fan, tuple(sorted(set(c["integer"] for c in t["cols"].values()))), t["missing"] is not None))
+    ctx.count("netcdf_models" if model.get("libs") == "nc" else "csv_models")
+    ctx.feature((model.get("libs", "csv"), len(t.get("shape", [0])), tuple(sorted(c["cmd"] for c in model["commands"]))[:8], depth, fan, tuple(sorted(set(c["integer"] for c in t["cols"].values()))), t["missing"] is not None))
     base = _run_variant(ctx, model, ctx.scratch(), "original")
     if base in ("failed", "undefined"):
         return
